@@ -45,6 +45,21 @@ MapOK(f, src, new) == DOMAIN f = src /\ {f[i] : i \in DOMAIN f} = new /\ \A a, b
 
 \* C05: the copy is faithful -- attributes, repetition terms and relations (re-pointed to the copied operations) as
 \* reported by the new objects right after the copy, compared with the specification's source objects
+\* position of a new object in the order in which the copies were made
+CopyPos(e, n) == CHOOSE j \in 1..Len(e.cmap) : e.cmap[j][1] = n
+\* the copy of a group relation lacks exactly those members that were copied only AFTER the referring operation
+LateMembersOnly(e, n, want, got) ==
+  /\ want.k = "multi" /\ got.k \in {"multi", "none"}
+  /\ Range(got.refs) \subseteq {e.cmap[j][1] : j \in 1..Len(e.cmap)}
+  /\ \A m \in Range(want.refs) \ Range(got.refs) : CopyPos(e, m) > CopyPos(e, n)
+  /\ \A m \in Range(got.refs) : CopyPos(e, m) < CopyPos(e, n)
+\* after such a deviation the specification continues from the relation the copy actually carries
+Resync(e, H, f) ==
+  [x \in DOMAIN H |->
+     IF x \in {f[i] : i \in DOMAIN f} /\ H[x].link.k = "multi" /\ x \in DOMAIN e.links
+        /\ LateMembersOnly(e, x, H[x].link, Clean(e.links[x])) /\ Clean(e.links[x]) # H[x].link
+     THEN [H[x] EXCEPT !.link = Clean(e.links[x])] ELSE H[x]]
+
 IsoClauses(e, f, root) ==
   UNION {LET n == f[i]  r == e.recs[n]  src == heap[i] IN
          (IF src.t = "op"
@@ -57,7 +72,8 @@ IsoClauses(e, f, root) ==
                     When(IF want.k = "multi" THEN got.k = "multi" /\ got.rt = want.rt /\ Range(want.refs) \subseteq Range(got.refs)
                                                    /\ Range(got.refs) \subseteq {f[x] : x \in DOMAIN f}
                          ELSE got = want,
-                         Fail("C05.iso.link", n, <<"copy reports", got, "source", i, src.link, "expected", want>>)))
+                         Fail(IF LateMembersOnly(e, n, want, got) THEN "C05.iso.link.late_member" ELSE "C05.iso.link", n,
+                              <<"copy reports", got, "source", i, src.link, "expected", want>>)))
          : i \in DOMAIN f}
 
 AddSubEv(e) ==
@@ -80,7 +96,7 @@ AddSubEv(e) ==
                \cup When(e.last_same, Fail("C02.return", e.id, <<>>))
   IN /\ heap' = IF e.how = "struct" /\ known
                 THEN AppendKid([heap EXCEPT ![e.s].home = e.c, ![e.s].link = after], e.c, e.s)
-                ELSE IF ok THEN DoAddSub(heap, e.c, e.s, f, after) ELSE heap
+                ELSE IF ok THEN Resync(e, DoAddSub(heap, e.c, e.s, f, after), f) ELSE heap
      /\ fails' = fails \cup Tag(cl)
      /\ UNCHANGED <<env, applied, flats, nobs>>
 
@@ -90,7 +106,7 @@ CopyCircEv(e) ==
       new   == DOMAIN e.tree
       f     == CmapFn(e.cmap, src, new)
       ok    == known /\ MapOK(f, src, new)
-  IN /\ heap' = IF ok THEN DoCopyCirc(heap, e.s, f) ELSE heap
+  IN /\ heap' = IF ok THEN Resync(e, DoCopyCirc(heap, e.s, f), f) ELSE heap
      /\ fails' = fails \cup Tag(When(ok, Fail("C05.map", e.id, <<"sources", src, "copied", DOMAIN f, "new", new>>))
                                \cup (IF ok THEN IsoClauses(e, f, "") ELSE {}))
      /\ applied' = IF e.s \in applied THEN applied \cup {e.id} ELSE applied
